@@ -474,7 +474,7 @@ func TestVerifC27(t *testing.T) {
 		tails          [][]byte
 		bothPlacements bool
 	}
-	big := mkSpecs(alpha{[]int{0, 1, 2, 3, 4}, []uint64{0, 1, 15, 16, 17, 19, 20, 21, 24, 25, 32, 40, 1 << 31, 1 << 32, m63 - 1, m63 - 8, m63 - 9, m63 - 16, m63 - 24, m63 - 48, m63, math.MaxUint64 - 7, math.MaxUint64}, []uint32{1400, 0, 0xfffffff0, 0x80000000}})
+	big := mkSpecs(alpha{[]int{0, 1, 2, 3, 4}, []uint64{0, 1, 15, 16, 17, 19, 20, 21, 24, 25, 32, 40, 1 << 31, 1 << 32, m63 - 1, m63 - 8, m63 - 9, m63 - 16, m63 - 24, m63 - 48, m63, math.MaxUint64 - 7, math.MaxUint64}, []uint32{1400, 0, 0xfffffff0}})
 	three := mc.Pick(c, mid, big)
 	plans := []plan{
 		{"1 cmsg, full alphabet, all tails, both placements", full, nil, nil, tails, true},
